@@ -26,6 +26,7 @@ import (
 	"github.com/indexsupply/shovel/shovel"
 	"github.com/indexsupply/shovel/shovel/config"
 	"github.com/indexsupply/shovel/shovel/glf"
+	"github.com/indexsupply/shovel/wctx"
 	"github.com/indexsupply/shovel/wpg"
 
 	"github.com/jackc/pgx/v5"
@@ -266,6 +267,7 @@ func scenarioGet(r *rng, rounds int, cn *counters) {
 // Converge, with head growth, reorgs and poller failures in flight
 func scenarioPipeline(r *rng, rounds int, cn *counters) {
 	for round := 0; round < rounds; round++ {
+		stepWithCounter(cn)
 		nd := newNode(50)
 		c := jrpc2.New(nd.url(), nd.url()+"/b").WithMaxReads(r.rng(2, 5)).WithPollDuration(time.Millisecond)
 		ntasks := r.rng(2, 5)
@@ -363,6 +365,36 @@ func runTask(t *shovel.Task, c *jrpc2.Client, batch uint64, cn *counters, plan s
 	}
 }
 
+// one step the way Task.Converge runs it: a context carrying the step's own
+// RPC counter, Latest as the first call on a fresh client (it starts the head
+// poller), the step kept open over two poll periods (the node holds the next
+// answer back until two polls were served), then the plain read of the
+// counter for the nrpc log attribute.  Every goroutine that adds to the counter
+// must have been waited for by then.
+func stepWithCounter(cn *counters) {
+	nd := newNode(50)
+	defer nd.close()
+	c := jrpc2.New(nd.url()).WithPollDuration(time.Millisecond)
+	nrpc := uint64(0)
+	ctx := wctx.WithCounter(context.Background(), &nrpc)
+	if _, _, err := c.Latest(ctx, nd.url(), 0); err != nil {
+		cn.add("step: latest error", 1)
+		return
+	}
+	nd.gate(2)
+	if _, err := c.Hash(ctx, nd.url(), 5); err != nil {
+		cn.add("step: hash error", 1)
+		return
+	}
+	if wctx.Counter(ctx) >= 2 {
+		cn.add("step with counter", 1)
+	}
+	// The step is over; the client and its poller live on (as they do in
+	// shovel, where the next step starts).  Wait, without doing any I/O of
+	// our own, until the poller has completed two more polls.
+	nd.awaitPolls(2)
+}
+
 // the head cache from several goroutines
 func scenarioNumHash(r *rng, rounds int, cn *counters) {
 	for round := 0; round < rounds; round++ {
@@ -404,6 +436,7 @@ func scenarioNumHash(r *rng, rounds int, cn *counters) {
 // and is restarted
 func scenarioLatest(r *rng, rounds int, cn *counters) {
 	for round := 0; round < rounds; round++ {
+		stepWithCounter(cn)
 		nd := newNode(100)
 		for k := uint64(1); k < 60; k += uint64(r.rng(2, 4)) {
 			nd.failPoll[k] = true
